@@ -206,4 +206,222 @@ theorem finalise_waits_for_restore_partial (s s' : JS) (i : Nat) (f : TFault) (e
       have := h1 rfl
       simp [this]
 
+
+/-! ### C06 — a failing call on the TrafficRouting -/
+
+theorem handle_get (i : Nat) (tr : Option TRO) : handleTrafficRouting i tr .get = (.err, tr) := by
+  unfold handleTrafficRouting; simp
+
+theorem handle_update (i : Nat) (t : TRO) (h1 : i ∉ t.holders) (h2 : t.phase ≠ .finalizing) (h3 : t.phase ≠ .terminating) :
+    handleTrafficRouting i (some t) .update = (.err, some t) := by
+  unfold handleTrafficRouting; simp [h1, h2, h3]
+
+theorem finalize_get (i : Nat) (tr : Option TRO) : finalizeTrafficRouting i tr .get = (true, tr) := by
+  unfold finalizeTrafficRouting; simp
+
+theorem finalize_update (i : Nat) (t : TRO) (h1 : i ∈ t.holders) : finalizeTrafficRouting i (some t) .update = (true, some t) := by
+  unfold finalizeTrafficRouting; simp [h1]
+
+/-- **`fault_reported` (C06)** — for every joint state: when the reconcile reaches the call on the TrafficRouting that
+    fails (the Get, or the finalizer update), it returns an error, leaves the TrafficRouting as it was, and the
+    rollout's own clean-up does not move: nothing happens behind a failed binding call. -/
+theorem fault_reported (s s' : JS) (i : Nat) (f : TFault) (e : Entry) (he : s.ros[i]? = some e) (hg : e.gone = false)
+    (h : step s (.ro i f) = some s') :
+    ∃ r tr' e', roReconcile i e.bound (roWorld s e) s.tr f = .val r tr' ∧ s'.ros[i]? = some e' ∧ s'.tr = tr' ∧
+      faultReported (faultReached i e.bound (roWorld s e) s.tr f) r.err e e' s.tr s'.tr = true := by
+  obtain ⟨r, tr', hr, hs'⟩ := step_ro s s' i f e he hg h
+  subst hs'
+  refine ⟨r, tr', landEntry e r, hr, get_set_self _ _ _ _ he, rfl, ?_⟩
+  unfold faultReported
+  cases hreach : faultReached i e.bound (roWorld s e) s.tr f with
+  | false => rfl
+  | true =>
+    dsimp only
+    unfold faultReached at hreach
+    simp only [Bool.and_eq_true, bne_iff_ne, ne_eq] at hreach
+    obtain ⟨⟨hb, hf⟩, hm⟩ := hreach
+    -- the two error cases give the claim; every other case contradicts `reached`
+    have errCase : r.err = true → tr' = s.tr → r.w = { (roWorld s e) with ro := (RolloutSM.handleFinalizer (roWorld s e).ro).1 } →
+        (r.err && tr' == s.tr && !cleanupMoved e (landEntry e r)) = true := by
+      intro h1 h2 h3
+      rw [h1, h2, err_not_moved s e r h3]; simp
+    cases ro_cases _ _ _ _ _ _ _ hr with
+    | pass h0 _ hc =>
+      rcases hc with hc | hc | ⟨hc, hne⟩
+      · rw [hb] at hc; cases hc
+      · rw [hc] at hm; cases hm
+      · rw [hc, h0] at hm
+        simp only [Bool.and_eq_true, beq_iff_eq] at hm
+        exact absurd hm.1 hne
+    | initDone hp _ h0 hin hh =>
+      rw [hp, h0] at hm
+      simp only [Bool.and_eq_true, beq_iff_eq] at hm
+      cases f with
+      | none => exact absurd rfl hf
+      | get => rw [handle_get] at hh; cases hh
+      | update =>
+        cases htr : s.tr with
+        | none => rw [htr] at hm; simp at hm
+        | some t =>
+          rw [htr] at hm hh
+          simp only [Bool.and_eq_true, Bool.not_eq_true', bne_iff_ne, ne_eq] at hm
+          obtain ⟨_, ⟨hm1, hm2⟩, hm3⟩ := hm
+          rw [handle_update i t (by simpa using hm1) hm2 hm3] at hh; cases hh
+    | initWait hp _ r0 h0 hin hh _ =>
+      rw [hp, h0] at hm
+      simp only [Bool.and_eq_true, beq_iff_eq] at hm
+      cases f with
+      | none => exact absurd rfl hf
+      | get => rw [handle_get] at hh; cases hh
+      | update =>
+        cases htr : s.tr with
+        | none => rw [htr] at hm; simp at hm
+        | some t =>
+          rw [htr] at hm hh
+          simp only [Bool.and_eq_true, Bool.not_eq_true', bne_iff_ne, ne_eq] at hm
+          obtain ⟨_, ⟨hm1, hm2⟩, hm3⟩ := hm
+          rw [handle_update i t (by simpa using hm1) hm2 hm3] at hh; cases hh
+    | initErr _ _ r0 _ _ hh he' =>
+      obtain ⟨_, h2, _, _⟩ := handle_spec i s.tr f
+      rw [hh] at h2
+      exact errCase (by rw [he']) (h2 rfl) (by rw [he'])
+    | finErr _ _ hh he' =>
+      obtain ⟨_, h2, _, _⟩ := finalize_spec i s.tr f
+      rw [hh] at h2
+      exact errCase (by rw [he']) (h2 rfl) (by rw [he'])
+    | finOk hp _ hh _ =>
+      rw [hp] at hm
+      cases f with
+      | none => exact absurd rfl hf
+      | get => rw [finalize_get] at hh; cases hh
+      | update =>
+        dsimp only at hm
+        cases htr : s.tr with
+        | none => rw [htr] at hm; simp [holdersOf] at hm
+        | some t =>
+          rw [htr] at hm hh
+          rw [finalize_update i t (by simpa [holdersOf] using hm)] at hh; cases hh
+
+
+/-! ## 5. Every label: visibility, totality -/
+
+theorem staysVisible_same (l : Label) (tr : Option TRO) : staysVisible l tr tr = true := by
+  cases tr <;> rfl
+
+theorem staysVisible_of_some (l : Label) (tr : Option TRO) (t : TRO) : staysVisible l tr (some t) = true := by
+  cases tr <;> rfl
+
+/-- **4b. `held_stays_visible` (C18)** — for every joint state and every label: the TrafficRouting object disappears
+    only when it is in deletion and its last finalizer goes — a TrafficRouting deleted while rollouts hold it stays
+    visible until the last holder has let go (and its own finalizer is off, `tr_finalizer_guard`). -/
+theorem held_stays_visible (s s' : JS) (l : Label) (h : step s l = some s') : staysVisible l s.tr s'.tr = true := by
+  cases l with
+  | ro i f =>
+    cases he : s.ros[i]? with
+    | none => simp only [step, he] at h; cases h; exact staysVisible_same _ _
+    | some e =>
+      cases hg : e.gone with
+      | true => simp only [step, he, hg, if_true] at h; cases h; exact staysVisible_same _ _
+      | false =>
+        obtain ⟨r, tr', hr, hs'⟩ := step_ro s s' i f e he hg h
+        subst hs'
+        obtain ⟨_, a2⟩ := ro_tr_effect _ _ _ _ _ _ _ hr
+        dsimp only
+        cases htr : s.tr with
+        | none => rfl
+        | some t =>
+          cases tr' with
+          | some _ => rfl
+          | none =>
+            rw [htr] at a2
+            unfold othersKept at a2
+            exact a2
+  | tr =>
+    have hk := tr_keeps_holders s s' h
+    cases htr : s.tr with
+    | none => rfl
+    | some t =>
+      rw [step_tr s t htr] at h; cases h
+      dsimp only
+      cases hst : stored (trCore t s.net s.mem).t with
+      | some _ => rfl
+      | none =>
+        obtain ⟨h1, _, h3⟩ := stored_none _ hst
+        rw [(core_frame t s.net s.mem).2.1] at h1
+        rw [(core_frame t s.net s.mem).1] at h3
+        simp [staysVisible, h1, h3]
+  | tick => simp only [step] at h; cases h; exact staysVisible_same _ _
+  | crash => simp only [step] at h; cases h; exact staysVisible_same _ _
+  | deleteTR =>
+    simp only [step] at h; cases h
+    dsimp only
+    cases htr : s.tr with
+    | none => rfl
+    | some t =>
+      simp only [Option.bind_some]
+      cases hst : stored { t with deleting := true } with
+      | some _ => rfl
+      | none =>
+        obtain ⟨_, h2, h3⟩ := stored_none _ hst
+        simp only at h2 h3
+        simp [staysVisible, h2, h3]
+  | createTR w g hr =>
+    simp only [step] at h
+    cases htr : s.tr with
+    | none => rfl
+    | some t => rw [htr] at h; cases h; rw [htr]; rfl
+  | editStrategy w =>
+    simp only [step] at h; cases h
+    dsimp only
+    cases s.tr <;> rfl
+  | deleteRo i =>
+    simp only [step] at h
+    repeat' split at h
+    all_goals (cases h; exact staysVisible_same _ _)
+  | perturb i w' =>
+    simp only [step] at h
+    repeat' split at h
+    all_goals (cases h; exact staysVisible_same _ _)
+  | envNet n => simp only [step] at h; cases h; exact staysVisible_same _ _
+
+/-- **6. `binding_total` (C09)** — for every joint state and every label: no label makes the TrafficRouting controller
+    panic (absent object, no strategy, empty `objectRef`, any phase string), and a Rollout reconcile panics only where the
+    plain reconcile of `RV.RolloutSM` does — the binding adds no crash … -/
+theorem binding_panics_only_plain (s : JS) (l : Label) (h : step s l = none) :
+    ∃ i f e, l = .ro i f ∧ s.ros[i]? = some e ∧ e.gone = false ∧ RolloutSM.reconcile (roWorld s e) = .panic := by
+  cases l with
+  | ro i f =>
+    cases he : s.ros[i]? with
+    | none => simp only [step, he] at h; cases h
+    | some e =>
+      cases hg : e.gone with
+      | true => simp only [step, he, hg, if_true] at h; cases h
+      | false =>
+        simp only [step, he, hg, Bool.false_eq_true, if_false] at h
+        split at h
+        · rename_i hp
+          exact ⟨i, f, e, rfl, he, hg, ro_panic_only_plain _ _ _ _ _ hp⟩
+        · cases h
+  | tr => simp only [step] at h; split at h <;> cases h
+  | tick => simp only [step] at h; cases h
+  | crash => simp only [step] at h; cases h
+  | deleteTR => simp only [step] at h; cases h
+  | createTR w g hr => simp only [step] at h; split at h <;> cases h
+  | editStrategy w => simp only [step] at h; cases h
+  | deleteRo i => simp only [step] at h; repeat' split at h
+                  all_goals cases h
+  | perturb i w' => simp only [step] at h; repeat' split at h
+                    all_goals cases h
+  | envNet n => simp only [step] at h; cases h
+
+/-- … hence (with `RV.Props.Reconcile.reconcile_total`) no state of the pair whose rollouts are not corrupted — the
+    decidable predicate of C09: states a user cannot produce through the documented editable fields — makes either
+    side panic, whatever the TrafficRouting looks like. -/
+theorem binding_total (s : JS) (l : Label)
+    (hok : ∀ (i : Nat) (e : Entry), s.ros[i]? = some e → e.gone = false → RV.Oracle.RolloutSM.corrupted (roWorld s e) = false) :
+    step s l ≠ none := by
+  intro h
+  obtain ⟨i, f, e, _, he, hg, hp⟩ := binding_panics_only_plain s l h
+  exact RV.Props.Reconcile.reconcile_total _ (hok i e he hg) hp
+
 end RV.Props.TRBind
